@@ -2,6 +2,7 @@ package main
 
 import (
 	"fmt"
+	"strings"
 	"go/token"
 	"go/types"
 
@@ -302,4 +303,350 @@ func byteValue(v ssa.Value, cval func(ssa.Value, int) (int64, bool)) (int64, boo
 		return cval(v, 0)
 	}
 	return 0, false
+}
+
+// ---- R100: the escaper's run bookkeeping, as a loop invariant ----
+
+func init() {
+	register(&Rule{ID: "R100", Name: "ESC-INVARIANT", Floor: 11,
+		Text: "AppendQuotedString keeps the invariant `buf = quote + escaped(str[:p]) and str[p:i] is a pending run of bytes that need no escaping`: (prologue) on entry to the loop the opening quote has been appended and i = p = 0; (step) one iteration is evaluated from the loop header with i, p and buf symbolic, for nine classes of the character at i (plain ASCII, newline, quote, control byte, invalid byte, U+2028, U+2029, other multi-byte rune, a genuine U+FFFD): a character that needs no escape appends nothing, advances i by the character's width and leaves p alone; a character that needs one appends exactly the pending run str[p:i] followed by its escape (\\n, \\\", \\u0001, \\ufffd, \\u2028, \\u2029), advances i by the width and sets p to the new i; (epilogue) after the loop str[p:] and the closing quote are appended and that buffer is returned. Every string is covered by induction over its characters; R28 decides the escape text of all 256 single bytes",
+		Run:  runR100})
+}
+
+func runR100(c *Ctx) {
+	p := c.P
+	fn := p.anchorEscaper()
+	if fn == nil {
+		c.undecided("internal/strings.AppendQuotedString", "-", "not found")
+		return
+	}
+	fnm := fname(fn)
+	strP := fn.Params[1]
+	var cLoad *ssa.Index
+	eachInstr(fn, func(in ssa.Instruction) {
+		if lk, ok := in.(*ssa.Index); ok && lk.X == ssa.Value(strP) && cLoad == nil {
+			cLoad = lk
+		}
+	})
+	var loop *loopInfo
+	if cLoad != nil {
+		for _, li := range loopsOf(fn) {
+			if inLoop(li, cLoad.Block()) {
+				l := li
+				loop = &l
+			}
+		}
+	}
+	if loop == nil {
+		c.undecided(fnm+"|loop", p.pos(fn.Pos()), "cannot find the loop over the string's bytes")
+		return
+	}
+	hdr := loop.header
+	// the three loop-carried values
+	var iPhi, pPhi, bufPhi *ssa.Phi
+	for _, in := range hdr.Instrs {
+		phi, ok := in.(*ssa.Phi)
+		if !ok {
+			break
+		}
+		switch {
+		case ssa.Value(phi) == cLoad.Index:
+			iPhi = phi
+		case isIntegerType(phi.Type()):
+			pPhi = phi
+		default:
+			bufPhi = phi
+		}
+	}
+	if iPhi == nil || pPhi == nil || bufPhi == nil {
+		c.undecided(fnm+"|loop state", p.pos(fn.Pos()), "the loop does not carry exactly a cursor, a run start and the buffer")
+		return
+	}
+	type class struct {
+		name  string
+		c     int64
+		r     int64
+		width int64
+		esc   string
+	}
+	classes := []class{
+		{"plain ASCII", 'a', 'a', 1, ""}, {"newline", '\n', '\n', 1, `\n`}, {"quote", '"', '"', 1, `\"`}, {"control byte 0x01", 1, 1, 1, `\u0001`},
+		{"invalid byte", 0xFF, 0xFFFD, 1, `\ufffd`}, {"U+2028", 0xE2, 0x2028, 3, `\u2028`}, {"U+2029", 0xE2, 0x2029, 3, `\u2029`},
+		{"two-byte rune", 0xC3, 0xE9, 2, ""}, {"genuine U+FFFD", 0xEF, 0xFFFD, 3, ""},
+	}
+	// describes what an append call appended: "RAW(p,i)", "RAW(p,end)", or literal bytes
+	payload := func(pe *pathExec, call *ssa.Call, cval func(ssa.Value, int) (int64, bool)) (string, bool) {
+		a := call.Call.Args[1]
+		if s, ok := constString(a); ok {
+			return s, true
+		}
+		if sl, ok := a.(*ssa.Slice); ok {
+			if sl.X == ssa.Value(strP) {
+				lo, hi := "0", "end"
+				if sl.Low != nil {
+					switch pe.resolve(sl.Low) {
+					case ssa.Value(pPhi):
+						lo = "p"
+					case ssa.Value(iPhi):
+						lo = "i"
+					default:
+						lo = "?"
+					}
+				}
+				if sl.High != nil {
+					switch pe.resolve(sl.High) {
+					case ssa.Value(iPhi):
+						hi = "i"
+					case ssa.Value(pPhi):
+						hi = "p"
+					default:
+						hi = "?"
+					}
+				}
+				return "RAW(" + lo + "," + hi + ")", true
+			}
+			if al, ok := sl.X.(*ssa.Alloc); ok {
+				out := ""
+				for _, r := range *al.Referrers() {
+					if ia, ok := r.(*ssa.IndexAddr); ok {
+						for _, r2 := range *ia.Referrers() {
+							if st, ok := r2.(*ssa.Store); ok {
+								b, ok := byteValue(st.Val, cval)
+								if !ok {
+									return "", false
+								}
+								out += string(rune(b))
+							}
+						}
+					}
+				}
+				return out, true
+			}
+		}
+		return "", false
+	}
+	for _, cl := range classes {
+		cl := cl
+		key := fmt.Sprintf("%s|step for %s", fnm, cl.name)
+		pe := &pathExec{fn: fn, start: hdr}
+		pe.stopAt = func(b *ssa.BasicBlock) bool { return b == hdr }
+		var cval func(v ssa.Value, d int) (int64, bool)
+		cval = func(v ssa.Value, d int) (int64, bool) {
+			if d > 10 {
+				return 0, false
+			}
+			v = pe.resolve(v)
+			if v == ssa.Value(cLoad) {
+				return cl.c, true
+			}
+			if x, ok := constInt(v); ok {
+				return x, true
+			}
+			switch t := v.(type) {
+			case *ssa.Extract:
+				if call, ok := t.Tuple.(*ssa.Call); ok {
+					if o := calleeObj(call); o != nil && o.Pkg() != nil && o.Pkg().Path() == "unicode/utf8" {
+						if t.Index == 0 {
+							return cl.r, true
+						}
+						return cl.width, true
+					}
+				}
+			case *ssa.Convert:
+				return cval(t.X, d+1)
+			case *ssa.BinOp:
+				x, ok1 := cval(t.X, d+1)
+				y, ok2 := cval(t.Y, d+1)
+				if ok1 && ok2 {
+					switch t.Op {
+					case token.SHR:
+						return x >> uint(y), true
+					case token.AND:
+						return x & y, true
+					}
+				}
+			}
+			return 0, false
+		}
+		first := true
+		pe.oracle = func(pe *pathExec, cond ssa.Value) (bool, bool) {
+			return pe.evalBool(cond, func(x ssa.Value) (bool, bool) {
+				b, ok := x.(*ssa.BinOp)
+				if !ok {
+					return false, false
+				}
+				// the loop condition i < len(str): there is a character at i
+				if b.X == ssa.Value(iPhi) && b.Op == token.LSS && first {
+					first = false
+					return true, true
+				}
+				l, ok1 := cval(b.X, 0)
+				r, ok2 := cval(b.Y, 0)
+				if !ok1 || !ok2 {
+					return false, false
+				}
+				switch b.Op {
+				case token.EQL:
+					return l == r, true
+				case token.NEQ:
+					return l != r, true
+				case token.LSS:
+					return l < r, true
+				case token.LEQ:
+					return l <= r, true
+				case token.GTR:
+					return l > r, true
+				case token.GEQ:
+					return l >= r, true
+				}
+				return false, false
+			})
+		}
+		end, why := pe.run()
+		if end != nil || pe.stopped == nil {
+			c.undecided(key, p.pos(fn.Pos()), "cannot evaluate the iteration: "+why)
+			continue
+		}
+		last := pe.path[len(pe.path)-1]
+		edge := func(phi *ssa.Phi) ssa.Value {
+			for k, pb := range hdr.Preds {
+				if pb == last {
+					return pe.resolve(phi.Edges[k])
+				}
+			}
+			return nil
+		}
+		iNew, pNew, bufNew := edge(iPhi), edge(pPhi), edge(bufPhi)
+		var problems []string
+		// cursor
+		advOK := false
+		if add, ok := iNew.(*ssa.BinOp); ok && add.Op == token.ADD && pe.resolve(add.X) == ssa.Value(iPhi) {
+			if w, ok := cval(add.Y, 0); ok && w == cl.width {
+				advOK = true
+			}
+		}
+		if !advOK {
+			problems = append(problems, fmt.Sprintf("the cursor becomes %s instead of i+%d", describe(iNew), cl.width))
+		}
+		// appended payloads
+		var outs []string
+		var lastAppend *ssa.Call
+		evalOK := true
+		for _, call := range pe.calls {
+			if builtinName(call) != "append" {
+				continue
+			}
+			s, ok := payload(pe, call, cval)
+			if !ok {
+				evalOK = false
+			}
+			outs = append(outs, s)
+			lastAppend = call
+		}
+		if !evalOK {
+			c.undecided(key, p.pos(fn.Pos()), "an appended payload cannot be evaluated")
+			continue
+		}
+		got := strings.Join(outs, "")
+		if cl.esc == "" {
+			if got != "" {
+				problems = append(problems, fmt.Sprintf("%q is appended although the character needs no escape", got))
+			}
+			if pNew != ssa.Value(pPhi) {
+				problems = append(problems, "the start of the pending run moves although nothing was flushed")
+			}
+			if bufNew != ssa.Value(bufPhi) {
+				problems = append(problems, "the buffer changes")
+			}
+		} else {
+			want := "RAW(p,i)" + cl.esc
+			if got != want {
+				problems = append(problems, fmt.Sprintf("appends %s, the invariant requires %s", got, want))
+			}
+			if pNew != iNew {
+				problems = append(problems, fmt.Sprintf("the start of the pending run becomes %s, not the new cursor: the next flush repeats or skips bytes", describe(pNew)))
+			}
+			if lastAppend == nil || bufNew != ssa.Value(lastAppend) {
+				problems = append(problems, "the buffer carried to the next iteration is not the result of the last append")
+			}
+		}
+		if len(problems) == 0 {
+			if cl.esc == "" {
+				c.ok(key, p.instrPos(cLoad), fmt.Sprintf("nothing appended, i += %d, p unchanged", cl.width))
+			} else {
+				c.ok(key, p.instrPos(cLoad), fmt.Sprintf("appends str[p:i] + %s, i += %d, p = i", cl.esc, cl.width))
+			}
+		} else {
+			c.bad(key, p.instrPos(cLoad), strings.Join(problems, "; "))
+		}
+	}
+	// prologue
+	{
+		key := fnm + "|prologue"
+		var entryPred *ssa.BasicBlock
+		for _, pb := range hdr.Preds {
+			if !inLoop(*loop, pb) {
+				entryPred = pb
+			}
+		}
+		var problems []string
+		if entryPred == nil {
+			problems = append(problems, "no entry edge into the loop")
+		} else {
+			for k, pb := range hdr.Preds {
+				if pb != entryPred {
+					continue
+				}
+				if v, ok := constInt(iPhi.Edges[k]); !ok || v != 0 {
+					problems = append(problems, "the cursor does not start at 0 ("+describe(iPhi.Edges[k])+"): the first byte is never examined")
+				}
+				if v, ok := constInt(pPhi.Edges[k]); !ok || v != 0 {
+					problems = append(problems, "the pending run does not start at 0")
+				}
+				call, ok := bufPhi.Edges[k].(*ssa.Call)
+				if !ok || builtinName(call) != "append" || call.Call.Args[0] != ssa.Value(fn.Params[0]) {
+					problems = append(problems, "the buffer entering the loop is not append(buf, '\"')")
+				} else if s, ok := payload(&pathExec{fn: fn, phi: map[*ssa.Phi]ssa.Value{}, mem: map[string]ssa.Value{}, vals: map[ssa.Value]ssa.Value{}, tup: map[*ssa.Call][]ssa.Value{}}, call, func(v ssa.Value, d int) (int64, bool) { return constInt(v) }); !ok || s != `"` {
+					problems = append(problems, "the opening quote is not what is appended first")
+				}
+			}
+		}
+		if len(problems) == 0 {
+			c.ok(key, p.pos(fn.Pos()), `buf + '"', i = p = 0`)
+		} else {
+			c.bad(key, p.pos(fn.Pos()), strings.Join(problems, "; "))
+		}
+	}
+	// epilogue
+	{
+		key := fnm + "|epilogue"
+		pe := &pathExec{fn: fn, start: hdr}
+		pe.oracle = func(pe *pathExec, cond ssa.Value) (bool, bool) {
+			if b, ok := cond.(*ssa.BinOp); ok && b.X == ssa.Value(iPhi) && b.Op == token.LSS {
+				return false, true
+			}
+			return false, false
+		}
+		end, why := pe.run()
+		ret, ok := end.(*ssa.Return)
+		if !ok {
+			c.undecided(key, p.pos(fn.Pos()), "cannot evaluate the code after the loop: "+why)
+		} else {
+			var outs []string
+			var lastAppend *ssa.Call
+			for _, call := range pe.calls {
+				if builtinName(call) == "append" {
+					s, _ := payload(pe, call, func(v ssa.Value, d int) (int64, bool) { return constInt(v) })
+					outs = append(outs, s)
+					lastAppend = call
+				}
+			}
+			got := strings.Join(outs, "")
+			if got == `RAW(p,end)"` && lastAppend != nil && pe.resolve(ret.Results[0]) == ssa.Value(lastAppend) {
+				c.ok(key, p.instrPos(ret), `appends str[p:] and the closing quote, returns that buffer`)
+			} else {
+				c.bad(key, p.instrPos(ret), fmt.Sprintf("after the loop %s is appended; the invariant requires the rest of the pending run and the closing quote (RAW(p,end)\")", got))
+			}
+		}
+	}
 }
